@@ -411,6 +411,44 @@ def combineSpec (ups cores downs : List Seg) (src dst : Nat) (findAllIdentical :
   let ps := filterLongPaths (sortByWeight (pathsOf (allJoins ups cores downs src dst)))
   if findAllIdentical then ps else filterDuplicates ps
 
+/-! ## Declarative form of the joins (what `allJoins` enumerates, see `Scion.C29.allJoins_iff`) -/
+
+/-- an exit of up segment `u`: leave at entry `sc` (not the last one) into that AS, or over peer
+entry `peer-1` of any entry onto the peering link it announces -/
+def IsUpExit (u : Seg) (e : Edge) (v : Vertex) : Prop :=
+  e.seg = u ∧ e.kind = .up ∧ ∃ ent, u.ents[e.sc]? = some ent ∧
+    ((e.peer = 0 ∧ e.sc + 1 ≠ u.ents.length ∧ v = vIA ent.ia) ∨
+     (∃ k p, e.peer = k + 1 ∧ ent.peers[k]? = some p ∧ v = vPeering ent.ia p.hf.inIf p.peer p.peerIf))
+
+/-- an entry of down segment `d`: enter at entry `sc` (not the last one) from that AS, or over
+peer entry `peer-1` from the peering link it announces (seen from the other side) -/
+def IsDownEntry (d : Seg) (v : Vertex) (e : Edge) : Prop :=
+  e.seg = d ∧ e.kind = .down ∧ ∃ ent, d.ents[e.sc]? = some ent ∧
+    ((e.peer = 0 ∧ e.sc + 1 ≠ d.ents.length ∧ v = vIA ent.ia) ∨
+     (∃ k p, e.peer = k + 1 ∧ ent.peers[k]? = some p ∧ v = vPeering p.peer p.peerIf ent.ia p.hf.inIf))
+
+def UpFrom (ups : List Seg) (src : Nat) (e : Edge) (v : Vertex) : Prop :=
+  ∃ u ∈ ups, lastIA u = some src ∧ IsUpExit u e v
+
+def DownTo (downs : List Seg) (dst : Nat) (v : Vertex) (e : Edge) : Prop :=
+  ∃ d ∈ downs, lastIA d = some dst ∧ IsDownEntry d v e
+
+/-- a core segment is used as a whole, from its last AS `a` to its first AS `b` -/
+def CoreOf (cores : List Seg) (a : Vertex) (e : Edge) (b : Vertex) : Prop :=
+  ∃ c ∈ cores, e = ⟨c, .core, 0, 0⟩ ∧ ∃ l f, lastIA c = some l ∧ firstIA c = some f ∧
+    a = vIA l ∧ b = vIA f
+
+/-- `es` joins at most one up, one core and one down segment, in that order, from `src` to `dst`,
+at common join points `v`, `w` (a common AS, or a peering link announced by both sides) -/
+def IsJoin (ups cores downs : List Seg) (src dst : Nat) (es : List Edge) : Prop :=
+  (∃ e, es = [e] ∧ UpFrom ups src e (vIA dst)) ∨
+  (∃ c, es = [c] ∧ CoreOf cores (vIA src) c (vIA dst)) ∨
+  (∃ d, es = [d] ∧ DownTo downs dst (vIA src) d) ∨
+  (∃ e c v, es = [e, c] ∧ UpFrom ups src e v ∧ CoreOf cores v c (vIA dst)) ∨
+  (∃ e d v, es = [e, d] ∧ UpFrom ups src e v ∧ DownTo downs dst v d) ∨
+  (∃ c d v, es = [c, d] ∧ CoreOf cores (vIA src) c v ∧ DownTo downs dst v d) ∨
+  (∃ e c d v w, es = [e, c, d] ∧ UpFrom ups src e v ∧ CoreOf cores v c w ∧ DownTo downs dst w d)
+
 /-! ## The directed multigraph of graph.go and the search over it -/
 
 /-- one entry `Adjacencies[src][dst][segment] = edge`; `segIdx` stands for the `*inputSegment`
